@@ -40,7 +40,10 @@ def render_module(root: Path, tasks: list[dict], version: int) -> str:
             kw.append(f"after={t['after_expr']!r}")
         if kw or t.get("use_decorator"):
             decos.append("@task(" + ", ".join(kw) + ")")
-        args = [f"d{j}: Path = ROOT / 'f{d}.txt'" for j, d in enumerate(t["deps"])]
+        args = [f"d{j}: Path = ROOT / 'f{d}.txt'" for j, d in enumerate(t["deps"]) if not 200 <= d < 300]
+        # hashed Python inputs (node ids 200-299): a PythonNode around a list, no default -> first in the signature
+        hargs = [f"pv{d}: Annotated[list, pytask.PythonNode(value=verif_rt.vt(ROOT, {d}), hash=True)]"
+                 for d in t["deps"] if 200 <= d < 300]
         sp = t.get("spell", {})
         def _pp(p):
             v = sp.get(str(p))
@@ -54,10 +57,10 @@ def render_module(root: Path, tasks: list[dict], version: int) -> str:
                 return f"p{j}: Annotated[Path, pytask.PathNode(path=ROOT / 'sub' / '..' / 'f{p}.txt'), Product]"
             return f"p{j}: Annotated[Path, Product] = {_pp(p)}"
         pargs = [_pa(j, p) for j, p in enumerate(t["prods"])]
-        args = [a for a in pargs if "=" not in a.split("]")[-1]] + args + [a for a in pargs if "=" in a.split("]")[-1]]
+        args = hargs + [a for a in pargs if "=" not in a.split("]")[-1]] + args + [a for a in pargs if "=" in a.split("]")[-1]]
         lines += decos
         lines.append(f"def task_t{t['id']}_({', '.join(args)}):")
-        dl = "[" + ", ".join(f"d{j}" for j in range(len(t["deps"]))) + "]"
+        dl = "[" + ", ".join((f"pv{d}" if 200 <= d < 300 else f"d{j}") for j, d in enumerate(t["deps"])) + "]"
         pl = "{" + ", ".join(f"{p}: p{j}" for j, p in enumerate(t["prods"])) + "}"
         lines.append(f"    verif_rt.body(ROOT, {t['id']}, VERSION, {dl}, {pl})")
         for a in t.get("attrs", []):
@@ -150,6 +153,8 @@ class Snap:
                 n = dag.nodes[sig].get("node")
                 if n is not None and hasattr(n, "path"):
                     nodes[sig] = n.path.parent.name + "/" + n.path.name if n.path.suffix == ".in" else n.path.name
+                elif n is not None and hasattr(n, "node_info") and str(getattr(n, "name", "")).split("::")[-1].startswith("pv"):
+                    nodes[sig] = str(n.name).split("::")[-1]
         root = session.config["root"]
         (root / "snapshot.json").write_text(json.dumps({"tasks": self.tasks, "nodes": nodes}))
 
@@ -204,6 +209,8 @@ def _child(root: str, cfg: dict, wfd: int, crash: dict | None):
                 n = dag.nodes[sig].get("node")
                 if n is not None and hasattr(n, "path"):
                     nodes[sig] = n.path.parent.name + "/" + n.path.name if n.path.suffix == ".in" else n.path.name
+                elif n is not None and hasattr(n, "node_info") and str(getattr(n, "name", "")).split("::")[-1].startswith("pv"):
+                    nodes[sig] = str(n.name).split("::")[-1]
         out["nodes"] = nodes
         os.write(wfd, json.dumps(out).encode())
     except BaseException:  # noqa: BLE001
